@@ -22,6 +22,20 @@
 (*   Compile   / syntax   (only if CPython cannot compile the text)  -> CompileError(line)       *)
 (*   Fold      / constant (only if CPython compiles the text)        -> FoldError(line)          *)
 (* Every other exception is an Escaped outcome, which is never acceptable.                      *)
+(*                                                                                              *)
+(* Sub-runs.  A string annotation (`-> 'C0'`), a type comment or a late annotation is evaluated *)
+(* by abstract_utils.eval_expr: the SAME three stage functions run on the expression text,      *)
+(*       Compile -> Blocks -> Run            (vm.compile_src(expr, mode="eval"); run_bytecode)  *)
+(* while the module body runs (inside Run), while definitions are analysed (inside Analyze) or  *)
+(* between the two (run_program resolves the late annotations after run_bytecode returns).      *)
+(* Events are emitted when a stage function RETURNS, so a sub-run inside Run appears before the  *)
+(* Run event (k = 5) and one inside/before Analyze before the Analyze event (k = 6).  A sub-run  *)
+(* may itself trigger a sub-run from its Run (an annotation evaluated while an annotation is     *)
+(* evaluated), so the sub-machine is a stack: Compile pushes, Blocks marks, Run pops.            *)
+(* eval_expr catches a CompileError of the expression text (reported as an annotation error at   *)
+(* the line of the annotation), so a failing sub-Compile ends that sub-run and nothing else;     *)
+(* whether the *expression* compiles is independent of whether the file compiles.  Any other     *)
+(* exception in a sub-run is not caught and is an Escaped outcome like everywhere else.          *)
 (* The pure part (Allowed, Advance, Verdict) is what TraceC15.tla applies to recorded runs.     *)
 EXTENDS Integers, Sequences, FiniteSets, TLC, Json
 
@@ -41,12 +55,28 @@ Why(exc) == IF exc \in {"SyntaxError", "IndentationError", "TabError", "CompileE
 (*   cline    : the line compile() blames (0 = it blames none, e.g. a NUL byte)                   *)
 (*   nlines   : number of lines of the text (a trailing newline opens a last, empty line)         *)
 
-(* machine state: [k |-> stages completed, phase |-> "run" | "end", out |-> outcome kind]        *)
-Start == [k |-> 0, phase |-> "run", out |-> "none"]
+(* machine state: [k |-> main stages completed, phase |-> "run" | "end", out |-> outcome kind,   *)
+(*                 sub |-> stack of open sub-runs, innermost last: "compiled" | "blocks"]         *)
+Start == [k |-> 0, phase |-> "run", out |-> "none", sub |-> <<>>]
+
+(* the window in which sub-runs occur: Fold done and Run not yet returned (5), Run returned and   *)
+(* Analyze not yet returned (6)                                                                    *)
+SubWindow == {5, 6}
+SubStages == {"Compile", "Blocks", "Run"}
+TopIs(s, v) == IF s = <<>> THEN FALSE ELSE s[Len(s)] = v    \* total (TLC splits \/ in actions)
+Pop(s) == SubSeq(s, 1, Len(s) - 1)
+
+(* does this event belong to a sub-run?  In the window every Compile/Blocks does (the main ones   *)
+(* are over), and a Run does iff a sub-run is open (the main Run returns with none open).         *)
+IsSub(st, ev) ==
+  /\ st.phase = "run" /\ st.k \in SubWindow
+  /\ \/ ev[1] \in {"Compile", "Blocks"}
+     \/ ev[1] = "Run" /\ st.sub # <<>>
 
 (* event = <<stage name, "ok" or exception type name>> *)
-Allowed(st, inp, ev) ==
+AllowedMain(st, inp, ev) ==
   /\ st.phase = "run"
+  /\ st.sub = <<>>
   /\ st.k < LastStage(inp.mode)
   /\ ev[1] = Stages[st.k + 1]
   /\ \/ /\ ev[2] = "ok"
@@ -57,16 +87,37 @@ Allowed(st, inp, ev) ==
      \/ /\ ev[1] = "Compile" /\ Why(ev[2]) = "syntax" /\ ~inp.compiles
      \/ /\ ev[1] = "Fold" /\ Why(ev[2]) = "constant" /\ inp.compiles
 
-Advance(st, inp, ev) ==
+AllowedSub(st, ev) ==
+  /\ IsSub(st, ev)
+  /\ \/ /\ ev[1] = "Compile"                     \* a new sub-run starts: at top level or from a sub-Run
+        /\ (st.sub = <<>> \/ TopIs(st.sub, "blocks"))
+        /\ (ev[2] = "ok" \/ ev[2] = "CompileError")  \* eval_expr catches exactly pyc.CompileError
+     \/ /\ ev[1] = "Blocks" /\ ev[2] = "ok"
+        /\ TopIs(st.sub, "compiled")
+     \/ /\ ev[1] = "Run" /\ ev[2] = "ok"
+        /\ TopIs(st.sub, "blocks")
+
+Allowed(st, inp, ev) == IF IsSub(st, ev) THEN AllowedSub(st, ev) ELSE AllowedMain(st, inp, ev)
+
+AdvanceSub(st, ev) ==
+  CASE ev[1] = "Compile" /\ ev[2] = "ok" -> [st EXCEPT !.sub = Append(st.sub, "compiled")]
+    [] ev[1] = "Compile" /\ ev[2] # "ok" -> st                 \* caught: that sub-run is over
+    [] ev[1] = "Blocks" -> [st EXCEPT !.sub = Append(Pop(st.sub), "blocks")]
+    [] ev[1] = "Run" -> [st EXCEPT !.sub = Pop(st.sub)]
+
+AdvanceMain(st, inp, ev) ==
   IF ev[2] = "ok"
     THEN IF st.k + 1 = LastStage(inp.mode)
-           THEN [k |-> st.k + 1, phase |-> "end", out |-> "Result"]
+           THEN [k |-> st.k + 1, phase |-> "end", out |-> "Result", sub |-> <<>>]
            ELSE [st EXCEPT !.k = st.k + 1]
-    ELSE [k |-> st.k, phase |-> "end",
+    ELSE [k |-> st.k, phase |-> "end", sub |-> <<>>,
           out |-> CASE Why(ev[2]) = "syntax" -> "CompileError"
                     [] Why(ev[2]) = "skip" -> "Skipped"
                     [] Why(ev[2]) = "constant" -> "FoldError"
                     [] OTHER -> "Escaped"]
+
+(* only applied to Allowed events *)
+Advance(st, inp, ev) == IF IsSub(st, ev) THEN AdvanceSub(st, ev) ELSE AdvanceMain(st, inp, ev)
 
 (* run the machine over a recorded event list; stops at the first event that is not allowed *)
 RECURSIVE RunEvents(_, _, _, _)
@@ -111,7 +162,9 @@ Verdict(inp, evs, crashed, errs) ==
 (* reports the terminal outcomes admit.  TLC checks that the allowed behaviours satisfy C15 as   *)
 (* stated, and exports the mutation plan (kind, slot) the driver applies to real token lists.    *)
 (* ------------------------------------------------------------------------------------------ *)
-CONSTANTS MaxLines, MutKinds, Slots, MaxMut, Export
+CONSTANTS MaxLines, MutKinds, Slots, MaxMut, Export,
+          MaxSub,        \* model bound: sub-run events per behaviour
+          MaxSubDepth    \* model bound: nesting of sub-runs
 
 VARIABLES inp, st, errs, muts, hist
 
@@ -126,7 +179,7 @@ Inputs ==
 Excs == {"SyntaxError", "IndentationError", "CompileError", "SkipFileError", "ConstantError"}
 ErrNames == {"python-compiler-error", "attribute-error"}
 
-Init == inp \in Inputs /\ st = [k |-> -1, phase |-> "src", out |-> "none"] /\ errs = <<>>
+Init == inp \in Inputs /\ st = [k |-> -1, phase |-> "src", out |-> "none", sub |-> <<>>] /\ errs = <<>>
         /\ muts = <<>> /\ hist = <<>>
 
 (* Mutate(kind, slot): a token of the text is deleted / duplicated / swapped with its neighbour / *)
@@ -139,12 +192,29 @@ Mutate(kind, slot) ==
 
 Begin == st.phase = "src" /\ st' = Start /\ UNCHANGED <<inp, errs, muts, hist>>
 
+(* hist records <<stage, status, "main" | "sub">>; Verdict reads the first two components only *)
 Stage ==
   /\ st.phase = "run"
+  /\ st.k < Len(Stages)
   /\ \E ev \in ({Stages[st.k + 1]} \X ({"ok"} \cup Excs)) :
+       /\ ~IsSub(st, ev)
        /\ Allowed(st, inp, ev)
        /\ st' = Advance(st, inp, ev)
-       /\ hist' = Append(hist, ev)
+       /\ hist' = Append(hist, <<ev[1], ev[2], "main">>)
+  /\ UNCHANGED <<inp, errs, muts>>
+
+NSub == Cardinality({j \in DOMAIN hist : hist[j][3] = "sub"})
+
+(* one step of a sub-run (annotation / type-comment evaluation) *)
+SubStage ==
+  /\ st.phase = "run"
+  /\ NSub < MaxSub
+  /\ \E ev \in (SubStages \X ({"ok"} \cup Excs)) :
+       /\ IsSub(st, ev)
+       /\ Allowed(st, inp, ev)
+       /\ (ev = <<"Compile", "ok">> => Len(st.sub) < MaxSubDepth)
+       /\ st' = Advance(st, inp, ev)
+       /\ hist' = Append(hist, <<ev[1], ev[2], "sub">>)
   /\ UNCHANGED <<inp, errs, muts>>
 
 (* the report the code attaches to a terminal outcome (errorlog) *)
@@ -164,13 +234,14 @@ Report ==
 NoReport == st.phase = "end" /\ st.out \in {"Result", "Skipped"} /\ st' = [st EXCEPT !.phase = "reported"]
             /\ UNCHANGED <<inp, errs, muts, hist>>
 
-Next == (\E k \in MutKinds, s \in Slots : Mutate(k, s)) \/ Begin \/ Stage \/ Report \/ NoReport
+Next == (\E k \in MutKinds, s \in Slots : Mutate(k, s)) \/ Begin \/ Stage \/ SubStage \/ Report \/ NoReport
 Spec == Init /\ [][Next]_vars
 
 (* C15 on the machine *)
 Terminal == st.phase = "reported"
 NeverEscapes == st.out # "Escaped"
-Accepts == Terminal => Verdict(inp, hist, FALSE, errs) = {}
+Ev2(h) == [j \in DOMAIN h |-> <<h[j][1], h[j][2]>>]
+Accepts == Terminal => Verdict(inp, Ev2(hist), FALSE, errs) = {}
 NotCompilable == (Terminal /\ ~inp.compiles /\ st.out # "Skipped") =>
                    /\ st.out = "CompileError" /\ Len(errs) = 1 /\ errs[1][1] = "python-compiler-error"
                    /\ (inp.cline > 0 => errs[1][2] = inp.cline)
@@ -178,8 +249,20 @@ Compilable == (Terminal /\ inp.compiles) => st.out \in {"Result", "FoldError", "
 LinesInFile == Terminal => \A j \in DOMAIN errs :
                  InFile(inp, errs[j][2]) \/ (st.out = "CompileError" /\ inp.cline = 0)
 FailOnlyWhereAllowed ==
-  \A j \in DOMAIN hist : hist[j][2] # "ok" => hist[j][1] \in {"Directors", "Compile", "Fold"}
-StagesInOrder == \A j \in DOMAIN hist : hist[j][1] = Stages[j]
+  \A j \in DOMAIN hist : hist[j][2] # "ok" =>
+     \/ hist[j][3] = "main" /\ hist[j][1] \in {"Directors", "Compile", "Fold"}
+     \/ hist[j][3] = "sub" /\ hist[j][1] = "Compile" /\ hist[j][2] = "CompileError"
+(* the main stages occur in pipeline order, each at most once *)
+MainHist == SelectSeq(hist, LAMBDA e : e[3] = "main")
+StagesInOrder == \A j \in DOMAIN MainHist : MainHist[j][1] = Stages[j]
+(* sub-run events occur only after Fold and before Analyze has returned, and are well nested:    *)
+(* every main stage event is emitted with no sub-run open, and a result has none open             *)
+MainBefore(j) == Cardinality({m \in 1 .. j - 1 : hist[m][3] = "main" /\ hist[m][2] = "ok"})
+SubRunsInWindow == \A j \in DOMAIN hist : hist[j][3] = "sub" => MainBefore(j) \in SubWindow
+SubRunsClosed == (st.phase \in {"end", "reported"} /\ st.out = "Result") => st.sub = <<>>
+SubRunsNested ==
+  /\ \A d \in DOMAIN st.sub : d < Len(st.sub) => st.sub[d] = "blocks"   \* only the innermost can be compiling
+  /\ (st.sub # <<>> => st.k \in SubWindow)
 
 ExportInv ==
   (Export /\ st.phase = "run" /\ st.k = 0) => PrintT(<<"CASE", ToJson([muts |-> muts, mode |-> inp.mode])>>)
